@@ -1132,7 +1132,7 @@ impl<'a> Gen<'a> {
 
 pub fn gen(seed: u64, thorough: bool, out: &mut dyn FnMut(String)) {
     let mut g = Gen { rng: Rng::new(seed ^ 0xFD1), out, n: 0 };
-    let scale = if thorough { 12 } else { 1 };
+    let scale = if thorough { 10 } else { 2 };
     for _ in 0..500 * scale {
         g.solo(false);
     }
